@@ -284,9 +284,26 @@ def check_body_read(P, R):
     # spill: every rebinding of the buffer inside the loop copies the old content first thing
     rebinds = [d for n in g.nodes for d in rd.gen.get(n, []) if d.name == body and d.node is not g.entry
                and T._inside(d.stmt, loop.body)]
+    TMP = ('TemporaryFile', 'NamedTemporaryFile', 'SpooledTemporaryFile')
     for d in rebinds:
         copies = [g.node_of_stmt(c)[0] for c in copy_writes]
         ok = bool(copies) and g.must_pass(d.node, head, copies) and g.must_pass(d.node, g.exit, copies)
+        if not ok and isinstance(d.value, ast.Name):
+            # copy-then-switch: `new = TemporaryFile(); new.write(<buffer>.getvalue()); <buffer> = new`
+            new = d.value.id
+            ndefs = rd.at(d.node, new)
+            fresh = bool(ndefs) and all(x.kind == 'assign' and isinstance(x.value, ast.Call) and call_attr(x.value) in TMP for x in ndefs)
+            pre = []
+            for c in walk_shallow(f.node):
+                if isinstance(c, ast.Call) and call_attr(c) == 'write' and isinstance(c.func.value, ast.Name) and c.func.value.id == new and len(c.args) == 1:
+                    gv = [x for x in ast.walk(T.expand(f, c.args[0], g.node_of_stmt(c)[0], keep=(body,))) if isinstance(x, ast.Call) and call_attr(x) == 'getvalue'
+                          and isinstance(x.func.value, ast.Name) and x.func.value.id == body]
+                    cn = g.node_of_stmt(c)[0]
+                    if gv and g.dominates(cn, d.node) and all(g.dominates(x.node, cn) for x in ndefs) and rd.same_defs(cn, d.node, body):
+                        pre.append(c)
+            other = [c for c in walk_shallow(f.node) if isinstance(c, ast.Call) and isinstance(c.func, ast.Attribute) and isinstance(c.func.value, ast.Name)
+                     and c.func.value.id == new and c not in pre and c.func.attr not in ('getvalue', 'tell', 'flush', 'fileno')]
+            ok = fresh and len(pre) == 1 and not other
         R.ob('C04.d', f, d.stmt, ok, detail='' if ok else f'{body} is rebound inside the loop without copying what was '
                                                           f'accumulated so far on every path',
              why='the bytes received before the switch to a temporary file would be lost')
